@@ -3,6 +3,7 @@ package main
 import (
 	"fmt"
 	"strings"
+	"sync"
 
 	. "verifh/hc"
 	"verifh/rd"
@@ -53,9 +54,14 @@ func (p *prog) do(op string) string {
 		return "stopped"
 	}
 	before := len(p.s.Handles)
-	res, stop := p.s.Do(op)
+	// the op is recorded before it runs: if it never returns the watchdog still has the case
+	progMu.Lock()
 	p.ops = append(p.ops, op)
+	progMu.Unlock()
+	res, stop := p.s.Do(op)
+	progMu.Lock()
 	p.obs = append(p.obs, res)
+	progMu.Unlock()
 	if len(p.s.Handles) > before {
 		pi := parseP(res)
 		pi.loc = p.s.Loc[before]
@@ -74,6 +80,18 @@ func (p *prog) do(op string) string {
 		p.stopped = true
 	}
 	return res
+}
+
+// the program being generated / executed, for the per-case watchdog
+var (
+	curProg *prog
+	progMu  sync.Mutex
+)
+
+func setCur(p *prog) {
+	progMu.Lock()
+	curProg = p
+	progMu.Unlock()
 }
 
 func atoi(s string) int { var x int; fmt.Sscan(s, &x); return x }
@@ -586,6 +604,7 @@ func genAdaptive(r *Rand, st *genStats, copyHeavy bool) *prog {
 		}
 	}
 	p := &prog{r: r, h: h, st: st}
+	setCur(p)
 	s, ok := NewSession(h)
 	if !ok {
 		return p
@@ -673,6 +692,18 @@ func (p *prog) finish(hasSrc, copyHeavy bool) {
 	p.do(fmt.Sprintf("walk:%d:%s", rootH, wa))
 	p.do("rt:" + wa)
 	p.do("dump:d")
+}
+
+// lineLocked: case line and observations so far (progMu held by the caller)
+func (p *prog) lineLocked() (string, string) {
+	ops := strings.Join(p.ops, ";")
+	if ops == "" {
+		ops = "-"
+	}
+	if p.s == nil {
+		return p.h.String() + " " + ops, "new:ok"
+	}
+	return p.h.String() + " " + ops, strings.Join(append([]string{"new:ok"}, p.obs...), ";")
 }
 
 func (p *prog) line() (string, string) {
